@@ -29,7 +29,7 @@ PLAN = {
     "thorough": {"shards": 8, "shard_timeout": 3600, "case_timeout": 90, "seq": 600000, "runs": 60000, "par": 6000, "max_case_timeouts": 10},
 }
 THRESHOLDS = {
-    "quick": {"individuals_checked": 5000, "sequential_calls": 600, "multi_objective_calls": 200, "representations": 300, "shared_problem_cases": 100, "runs": 70, "parallel_calls": 40, "parallel_individuals": 150, "set:completion_orders": 5, "parallel_with_evaluated_members": 10, "parallel_batches_with_duplicates": 8, "runs_with_selection_after_variation": 30, "multi_returns:reused-list": 50, "multi_returns:tuple": 50},
+    "quick": {"individuals_checked": 5000, "sequential_calls": 600, "multi_objective_calls": 200, "representations": 300, "shared_problem_cases": 100, "runs": 70, "parallel_calls": 40, "parallel_individuals": 150, "set:completion_orders": 5, "parallel_with_evaluated_members": 10, "parallel_batches_with_duplicates": 8, "runs_with_selection_after_variation": 30, "multi_returns:reused-list": 50, "multi_returns:tuple": 50, "parallel_batches_of_never_mapped_individuals": 10, "parallel_never_mapped:dsge": 3},
     "thorough": {"individuals_checked": 120000, "parallel_calls": 600, "set:completion_orders": 40},
 }
 
@@ -105,6 +105,8 @@ def gen_cases(tier, seed):
         yield {"kind": "run", "alg": rng.choice(["gp", "gp", "hc"]), "step": rng.choice(["default", "default", "mut-then-tournament", "mut-then-elitism", "mut-then-evaluate"]), "pop": rng.choice([2, 3, 5, 8]), "budget": rng.randint(5, 40), "multi": rng.random() < 0.3, "returns": rng.choice(["fresh-list", "reused-list", "tuple"]), "minimize": rng.random() < 0.5, "repr": rng.choice(["tree", "ge"]), "seed": rng.randrange(10**6)}
     for i in range(plan["par"]):
         yield {"kind": "par", "n": rng.choice([1, 2, 3, 4, 6, 8]), "pre": rng.choice([0.0, 0.0, 0.3, 0.6]), "dups": rng.random() < 0.4, "multi": rng.random() < 0.3, "minimize": rng.random() < 0.5, "repr": rng.choice(["tree", "ge"]), "seed": rng.randrange(10**6)}
+        if rng.random() < 0.5:
+            yield {"kind": "par", "n": rng.choice([2, 3, 4, 6]), "pre": 0.0, "dups": rng.random() < 0.3, "multi": rng.random() < 0.3, "minimize": rng.random() < 0.5, "repr": rng.choice(["dsge", "dsge", "sge", "stack", "ge", "tree"]), "fresh": True, "seed": rng.randrange(10**6)}
 
 
 def setup(rec):
@@ -310,11 +312,20 @@ def run_par(case, rec):
     src = workload.native(case["seed"])
     rng = pyrandom.Random(case["seed"])
     rep = evo.make_rep(case["repr"], g, src)
-    inds = evo.individuals(rep, src, case["n"])
+    if case.get("fresh"):
+        # individuals that have never been mapped in this process (what a search hands to its evaluator first):
+        # the program a worker derives must be the program the individual has afterwards
+        from geneticengine.solutions.individual import Individual
+
+        inds = [Individual(rep.create_genotype(src), rep) for _ in range(case["n"])]
+        rec.count("parallel_batches_of_never_mapped_individuals")
+        rec.count(f"parallel_never_mapped:{case['repr']}")
+    else:
+        inds = evo.individuals(rep, src, case["n"])
     if len(inds) < case["n"]:
         return
     prob, mins = make_problem(case, logged_fitness, logged_fitness_multi)
-    wit = {k: case[k] for k in ("n", "multi", "minimize", "repr", "pre")}
+    wit = {k: case.get(k) for k in ("n", "multi", "minimize", "repr", "pre", "fresh")}
     pre = [i for i in inds if rng.random() < case["pre"]]
     SequentialEvaluator().evaluate(prob, pre)
     if pre:
